@@ -4,6 +4,7 @@ package keystore
 
 import (
 	"context"
+	"errors"
 	"strconv"
 
 	ds "github.com/ipfs/go-datastore"
@@ -21,6 +22,9 @@ type vfJournalDS struct {
 	inner   ds.Batching
 	journal []vfEntry
 	synced  int // journal length at the last Sync
+	// failDeleteIn: when > 0, counts down on every Delete; the Delete that brings
+	// it to 0 fails (an I/O error in the middle of a multi-batch operation)
+	failDeleteIn int
 }
 
 type vfEntry struct {
@@ -49,6 +53,12 @@ func (d *vfJournalDS) Put(ctx context.Context, k ds.Key, v []byte) error {
 	return d.inner.Put(ctx, k, v)
 }
 func (d *vfJournalDS) Delete(ctx context.Context, k ds.Key) error {
+	if d.failDeleteIn > 0 {
+		d.failDeleteIn--
+		if d.failDeleteIn == 0 {
+			return errors.New("datastore write failed")
+		}
+	}
 	d.journal = append(d.journal, vfEntry{key: k, del: true})
 	return d.inner.Delete(ctx, k)
 }
@@ -138,7 +148,7 @@ func VfKeystoreHistory() {
 	d := vfNewJournalDS()
 	prefixBits := 8 * vfChoose("prefixBitsDiv8", 2) // 0: every prefix is "long"; 8: the default-style bucket path
 	open := func(dd *vfJournalDS) Keystore {
-		ks, err := NewKeystore(dd, WithPrefixBits(prefixBits))
+		ks, err := NewKeystore(dd, WithPrefixBits(prefixBits), WithBatchSize(1))
 		vfAssert(err == nil && ks != nil, "keystore/opens")
 		return ks
 	}
@@ -220,10 +230,28 @@ func VfKeystoreHistory() {
 			}
 			vfAssert(ks.Delete(ctx, keys...) == nil, "delete/no-error")
 			in[i] = false
-		case 5: // Empty
-			vfAssert(ks.Empty(ctx) == nil, "empty/no-error")
-			for i := range in {
-				in[i] = false
+		case 5: // Empty, possibly failing part-way (batch size 1: one commit per key)
+			if vfBool("empty.datastoreFailsPartWay") {
+				d.failDeleteIn = 1 + vfChoose("empty.failingDelete", M)
+				err := ks.Empty(ctx)
+				armed := d.failDeleteIn > 0
+				d.failDeleteIn = 0
+				if !armed {
+					vfAssert(err != nil, "empty/reports-the-datastore-failure")
+				}
+				// whatever subset was deleted, the keystore must agree with itself
+				got, gerr := ks.Get(ctx, "")
+				vfAssert(gerr == nil, "get/no-error")
+				for i := range in {
+					still := vfIndex(got, all[i]) >= 0
+					vfAssert(!still || in[i], "empty/a-failed-empty-adds-nothing")
+					in[i] = still
+				}
+			} else {
+				vfAssert(ks.Empty(ctx) == nil, "empty/no-error")
+				for i := range in {
+					in[i] = false
+				}
 			}
 		case 6: // Size only
 		}
